@@ -12,7 +12,7 @@
 //! coverage is the per-level bounding union of the sources' coverages; streams = lookups (C02
 //! oracle) for boxes across the sources' coverage borders.
 //! Model: the same lines through `vtdriver`.
-use crate::c02::{coords_arg, gen_sources, geo_arg, zoom_arg};
+use crate::c02::{coords_arg, gen_sources, geo_arg, overlay_orders, shape_boxes, shape_sources, zoom_arg};
 use crate::common::*;
 use crate::tsrc::*;
 use serde_json::json;
@@ -277,8 +277,41 @@ pub fn run(args: &Args) {
 	}
 	let mut rng = Rng::new(args.seed);
 	let mut next: u64 = 0;
+	// overlays of 3-5 sources with L-shaped / framed / checkerboard / nested coverages inside one 32x32 sub-box, every rotation
+	for _ in 0..args.n(4, 16) {
+		let specs = shape_sources(&mut rng, &mut next);
+		let w = World::build(&rt, &scratch, &specs);
+		out.count("world_shapes");
+		if w.usable() {
+			let boxes = shape_boxes(&specs);
+			for ord in overlay_orders(&mut rng, specs.len(), args.n(2, 6)) {
+				let rpn = format!("{},O{}", ord.iter().map(|i| format!("L{i}")).collect::<Vec<_>>().join(","), ord.len());
+				run_in_world(&rt, &mut out, &mut id, &w, "C08", "S", &rpn, &boxes_arg(&boxes));
+			}
+			let coords = coord_list(&mut rng, &specs);
+			check_overlay(&rt, &mut out, &w, specs.len(), &coords);
+		}
+		w.cleanup();
+	}
 	for wi in 0..args.n(22, 120) {
 		let mut specs = gen_sources(&mut rng, &mut next, 2, 4, 60);
+		// every 5th world: an mbtiles file with placeholder rows (tile_data NULL / TEXT / INTEGER / REAL: not tiles) at the first
+		// or a middle position; a later source covers those coordinates
+		if wi % 5 == 2 {
+			let j = if rng.chance(1, 2) { 0 } else { (specs.len() - 1) / 2 };
+			specs[j].kind = format!("mbx{}", wi % 50);
+			specs[j].comp = 1;
+			specs[j].fail.clear();
+			let last = specs.len() - 1;
+			if last != j && conv_flags(&specs[last].kind).is_none() && base_kind(&specs[last].kind) != "mbtiles" {
+				let ks: Vec<Key> = specs[j].tiles.keys().copied().collect();
+				for c in ks {
+					next += 1;
+					specs[last].tiles.entry(c).or_insert(next);
+				}
+			}
+			out.count("mbx_source_with_placeholder_rows");
+		}
 		// every fourth world: all sources share one compression (declared compression = common one)
 		if wi % 4 == 3 {
 			let c = specs[0].comp;
